@@ -133,6 +133,26 @@ def o3(tier):
     return ob.done(cases=len(paths))
 
 
+def o4(tier):
+    """a snapshot keeps its age: the rollback puts the other snapshots of the group back with their stored created_at, so the start-up TTL prune still sees their real age"""
+    from props import C09
+    r = C09.sqlite_columns(tier)
+    r.oid = 'O4'
+    r.title = 'SQLite (shared with C09-O2): snapshots that survive a rollback are re-inserted with every stored column, created_at included (their age does not restart, the TTL prune removes them in time)'
+    return r
+
+
 def run(tier, seed, only=None):
-    obs = [('O1', o1), ('O2', o2), ('O3', o3)]
-    return [f(tier) for k, f in obs if not only or k in only]
+    obs = [('O1', o1), ('O2', o2), ('O3', o3), ('O4', o4)]
+    out = []
+    for k, f in obs:
+        if only and k not in only:
+            continue
+        try:
+            out.append(f(tier))
+        except Exception as e:
+            from vlib.common import Result
+            rr = Result(k, 'sqlsym' if type(e).__name__ == 'SqlError' else 'mirsym', f.__doc__ or f.__name__)
+            rr.broken(f'{type(e).__name__}: {e}')
+            out.append(rr)
+    return out
